@@ -277,7 +277,7 @@ theorem addInput_cinv {env : Env} {s1 s' : St} (hinv : CInv env s1) (n : Node) (
   have hmn : m ≠ n := fun h => hin ((hinp m).mpr (Or.inr h))
   rw [hdata, lookup_insert, if_neg (Ne.symm hmn)] at hl
   obtain ⟨tr, hcert⟩ := hinv m w hl (fun h => hin ((hinp m).mpr (Or.inl h)))
-  refine ⟨tr, hcert.replay, hcert.noneOK, ?_⟩
+  refine ⟨tr, hcert.replay, hcert.noneOK, ?_, fun a ha => hcert.just a (hge ▸ ha)⟩
   intro ev hm
   have hok := hcert.events ev hm
   cases ev with
